@@ -266,3 +266,5 @@ def run(ctx):
                p.events[-1], "" if ok else "a release that passes validation ends with "
                "frames %s (%s)" % (sent, p.outcome.kind), None if ok else render_path(p.events))
     ctx.require("R07.answer", na, 2, "release paths that pass validation")
+
+EXPLANATION += ' Batch 6: the close operation deletes nameplate rows only in the transaction that deletes its own mailbox row; field presence is decided by `in` / `is None` (R07.present); the deletion guard is also recognised in its loop spelling.'
